@@ -51,7 +51,8 @@ func init() {
 }
 
 func c08Body(id string, size int) string {
-	base := "body of " + id + " "
+	// (with text a formatting function would mangle: the payload is data, not a format)
+	base := "body of " + id + " 50% done %s %d %% %!x(MISSING) "
 	if size <= len(base) {
 		return base
 	}
